@@ -342,6 +342,11 @@ func crashViolation(prop string, r Result) (Violation, bool) {
 				if f == "" {
 					break
 				}
+				if j == i+1 && strings.HasPrefix(f, "verif/") {
+					// the access itself sits in harness code (a scenario variable shared
+					// between harness goroutines): harness trouble, not a finding
+					return Violation{}, false
+				}
 				if strings.HasPrefix(f, "github.com/gopcua/opcua") && !strings.Contains(f, "/simhook.") {
 					top = strings.TrimPrefix(strings.TrimSuffix(f, "()"), "github.com/gopcua/opcua")
 					top = strings.TrimPrefix(top, "/")
